@@ -26,6 +26,17 @@ META = dict(
 KEYPOOL = 3
 
 
+PASSPHRASE = "pw"
+HARD_SLOT = "bech32/1"     # the slot whose active descriptor has a hardened range step (imported in the prelude of every chain)
+
+
+def prelude(lock):
+    """wallet set-up before the behaviour starts: the hardened descriptor becomes the active bech32 change descriptor; an encrypted chain is
+    encrypted first (EncryptWallet replaces the active descriptors, so the import comes afterwards, with the wallet unlocked)"""
+    imp = ["importh", 1, True]
+    return [imp] if lock == "plain" else [["encrypt", PASSPHRASE], ["unlock", PASSPHRASE], imp]
+
+
 def split_sessions(steps):
     """model steps -> [(list of (model step index, adapter op), crash kind after the session or None)]"""
     sessions, cur = [], []
@@ -37,15 +48,42 @@ def split_sessions(steps):
             sessions.append((cur, a[1])); cur = []
         elif a[0] == "new":
             cur.append((k, W.addr_step(a[1])))
+        elif a[0] == "resret":
+            t, internal = a[1].split("/")
+            cur.append((k, ["reserve", t, internal == "1", "return"]))
         elif a[0] == "topup":
             cur.append((k, ["topup", a[1]]))
         elif a[0] == "reload":
             cur.append((k, ["reload"]))
+        elif a[0] == "lock":
+            cur.append((k, ["lock"]))
+        elif a[0] == "unlock":
+            cur.append((k, ["unlock", PASSPHRASE]))
         else:
             raise vflib.InfraError("unknown model action %s" % a)
     if cur or not sessions:
         sessions.append((cur, None))
     return sessions
+
+
+def lock_state(obs):
+    return "plain" if not obs.get("enc") else ("locked" if obs.get("islocked") else "unlocked")
+
+
+def add_probe(o, addrs, pairs, enc):
+    """appends the fresh addresses of a probed image; returns the number of requests that failed although they must succeed (a locked wallet
+    may refuse the hardened descriptor)"""
+    failed = 0
+    for n, stp in enumerate(o["steps"]):
+        if n == 8:       # ["unlock", pw] of an encrypted chain
+            failed += 0 if stp["r"].get("ok") else 1
+            continue
+        slot = W.SLOTS[n] if n < 8 else HARD_SLOT
+        if stp["r"].get("ok"):
+            addrs.append(stp["r"]["addr"]); pairs.append([slot, stp["r"].get("idx", -1)])
+        elif not (enc and n < 8 and slot == HARD_SLOT):
+            failed += 1
+    return failed
 
 
 def slot_state(obs):
@@ -61,8 +99,15 @@ def run_chain(ctx, binary, bi, beh, quick, stride):
     prev_addrs, prev_pairs = [], []
     image = None
     nested_candidates = []
+    lock0 = beh["init"]["lock"]
+    enc = lock0 != "plain"
+    probe = W.PROBE + ([["unlock", PASSPHRASE], ["change", "bech32"]] if enc else [])
     for si, (ops, crash) in enumerate(split_sessions(beh["steps"])):
         tag = "b%d_s%d" % (bi, si)
+        nprel = 0
+        if si == 0:
+            pre = prelude(lock0); nprel = len(pre)
+            ops = [(None, op) for op in pre] + ops
         sess = W.Session(ctx, binary, dict(keypool=KEYPOOL, steps=[op for _, op in ops]), tag, image_rel=image)
         ctx.log("%s: session done (%d syscalls)" % (tag, len(sess.calls)))
         try:
@@ -76,31 +121,51 @@ def run_chain(ctx, binary, bi, beh, quick, stride):
             mut = sess.mutating_points()
             if sess.model_bad:
                 raise vflib.InfraError("file model does not reproduce the wallet directory (%s differ)" % sess.model_bad)
+            if nprel:
+                if any(not sess.out["steps"][j]["r"].get("ok") for j in range(nprel)):
+                    raise vflib.InfraError("wallet set-up failed: %s" % [sess.out["steps"][j]["r"] for j in range(nprel)])
+                prelude_end = sess.step_end[nprel - 1]
+                mut = [p for p in mut if p > prelude_end]
             stats["sessions"] += 1
             # addresses this session handed out, by step
             got = {}
             failed_steps = 0
             for j, (k, op) in enumerate(ops):
+                if k is None:
+                    continue
                 st = sess.out["steps"][j]
                 model = beh["steps"][k]
-                if op[0] in ("new", "change"):
+                model_fails = model.get("r") == ["fail"]
+                if op[0] in ("new", "change", "reserve"):
                     slot = model["a"][1]
                     if not st["r"].get("ok"):
-                        failed_steps += 1
-                        devs.append(dict(chain=bi, step=k, a=model["a"], why="request failed: %s" % st["r"]))
-                        continue
-                    got[j] = (st["r"]["addr"], [slot, st["r"].get("idx", -1)])
-                    if "r" in model and st["r"].get("idx") != model["r"][1]:
-                        devs.append(dict(chain=bi, step=k, a=model["a"], why="index %s, model %s" % (st["r"].get("idx"), model["r"][1])))
+                        stats["failed_requests"] += 1
+                        if not model_fails:      # the specification expects an address here
+                            failed_steps += 1
+                            devs.append(dict(chain=bi, step=k, a=model["a"], why="request failed: %s" % st["r"]))
+                    elif op[0] == "reserve":
+                        stats["returned_reservations"] += 1   # reserved and given back: never handed out
+                        if model_fails:
+                            devs.append(dict(chain=bi, step=k, a=model["a"], why="reservation succeeded, model expects a failure"))
+                    else:
+                        got[j] = (st["r"]["addr"], [slot, st["r"].get("idx", -1)])
+                        if model_fails:
+                            devs.append(dict(chain=bi, step=k, a=model["a"], why="address handed out, model expects a failure"))
+                        elif "r" in model and st["r"].get("idx") != model["r"][1]:
+                            devs.append(dict(chain=bi, step=k, a=model["a"], why="index %s, model %s" % (st["r"].get("idx"), model["r"][1])))
+                elif not st["r"].get("ok") and op[0] != "topup":     # keypoolrefill reports false when some descriptor cannot be refilled (locked, hardened)
+                    devs.append(dict(chain=bi, step=k, a=model["a"], why="call failed: %s" % st["r"]))
                 have = slot_state(st["obs"])
                 exp = model.get("exp")
                 for slot in (W.SLOTS if exp else []):
                     if have.get(slot) != (exp["next"][slot], exp["range"][slot]):
                         devs.append(dict(chain=bi, step=k, a=model["a"], why="%s next/range %s, model %s" % (slot, have.get(slot), (exp["next"][slot], exp["range"][slot]))))
                         break
+                if exp and lock_state(st["obs"]) != exp["lock"]:
+                    devs.append(dict(chain=bi, step=k, a=model["a"], why="lock state %s, model %s" % (lock_state(st["obs"]), exp["lock"])))
                 stats["steps"] += 1
             # crash points: every return, plus write/fsync boundaries inside the calls
-            ends = sorted(sess.step_end.values())
+            ends = sorted(e for j, e in sess.step_end.items() if j >= nprel)
             inner = mut[(ctx.seed + bi + si) % stride::stride]
             points = sorted(set(ends + inner))
             stats["mutating_syscalls"] += len(mut)
@@ -117,7 +182,7 @@ def run_chain(ctx, binary, bi, beh, quick, stride):
                 if mode == 0 and cur is not None and rel.get("/wallet.dat-journal") and len(nested_candidates) < (1 if quick else 4) and (pt + bi) % 7 == 0:
                     nested_candidates.append((rel, tag, pt, list(prev_addrs) + [got[j][0] for j in done if j in got], list(prev_pairs) + [got[j][1] for j in done if j in got]))
             ctx.log("%s: %d steps, %d crash points, %d images (%d distinct)" % (tag, len(ops), len(points), len(meta), len(imgs)))
-            rec = W.recover_batch(ctx, binary, imgs, W.PROBE, KEYPOOL, tag=tag)
+            rec = W.recover_batch(ctx, binary, imgs, probe, KEYPOOL, tag=tag)
             ctx.log("%s: images reloaded" % tag)
             stats["images"] += len(meta); stats["distinct_images"] += len(imgs)
             for pt, mode, k in meta:
@@ -125,13 +190,7 @@ def run_chain(ctx, binary, bi, beh, quick, stride):
                 addrs = list(prev_addrs) + [got[j][0] for j in done if j in got]
                 pairs = list(prev_pairs) + [got[j][1] for j in done if j in got]
                 o = rec[k]
-                failed = 0
-                if o["load"] == "ok":
-                    for n, stp in enumerate(o["steps"]):
-                        if stp["r"].get("ok"):
-                            addrs.append(stp["r"]["addr"]); pairs.append([W.SLOTS[n], stp["r"].get("idx", -1)])
-                        else:
-                            failed += 1
+                failed = add_probe(o, addrs, pairs, enc) if o["load"] == "ok" else 0
                 where = ("inside step %d %s" % (cur, ops[cur][1][0]) if cur is not None else "after the return of step %d" % (done[-1] if done else -1))
                 lines.append(dict(act=["crash", bi, si, pt, W.MODE_NAMES[mode]], where=where + " of session %d" % si, load=o["load"], addrs=addrs, pairs=pairs, failed=failed))
             prev_addrs = prev_addrs + [got[j][0] for j in sorted(got)]
@@ -139,8 +198,8 @@ def run_chain(ctx, binary, bi, beh, quick, stride):
             lines.append(dict(act=["session", bi, si], where="end of session %d" % si, load="ok", addrs=prev_addrs, pairs=prev_pairs, failed=failed_steps))
             if crash is not None:
                 if not ends:
-                    # a crash right after loading: the image is the directory as it is once the load has finished
-                    end_images = {m: rel for pt, m, rel in sess.images([sess.base_end], modes=(0, 1))}
+                    # a crash right after loading / set-up: the image is the directory as it is then
+                    end_images = {m: rel for pt, m, rel in sess.images([sess.step_end[nprel - 1] if nprel else sess.base_end], modes=(0, 1))}
                 image = end_images[0 if crash == "kill" else 1]
         finally:
             sess.cleanup()
@@ -159,15 +218,10 @@ def run_chain(ctx, binary, bi, beh, quick, stride):
                 if dg not in seen:
                     seen[dg] = len(imgs); imgs.append(r2)
                 meta.append((pt, mode, seen[dg]))
-            rec = W.recover_batch(ctx, binary, imgs, W.PROBE, KEYPOOL, tag=tag + "_n")
+            rec = W.recover_batch(ctx, binary, imgs, probe, KEYPOOL, tag=tag + "_n")
             for pt, mode, k in meta:
-                o = rec[k]; addrs = list(addrs0); pairs = list(pairs0); failed = 0
-                if o["load"] == "ok":
-                    for n, stp in enumerate(o["steps"]):
-                        if stp["r"].get("ok"):
-                            addrs.append(stp["r"]["addr"]); pairs.append([W.SLOTS[n], stp["r"].get("idx", -1)])
-                        else:
-                            failed += 1
+                o = rec[k]; addrs = list(addrs0); pairs = list(pairs0)
+                failed = add_probe(o, addrs, pairs, enc) if o["load"] == "ok" else 0
                 lines.append(dict(act=["crash-during-recovery", bi, pt0, pt, W.MODE_NAMES[mode]], where="syscall %d of the load from the kill image taken at syscall %d" % (pt, pt0),
                                   load=o["load"], addrs=addrs, pairs=pairs, failed=failed))
                 stats["second_level_images"] += 1
@@ -180,10 +234,10 @@ def run(ctx):
     binary = ctx.build_adapter("walletdb")
     quick = ctx.tier == "quick"
     # ---- design level (the five TLC runs are small: run them side by side)
-    with concurrent.futures.ThreadPoolExecutor(max_workers=5) as ex:
+    with concurrent.futures.ThreadPoolExecutor(max_workers=6) as ex:
         f_ok = ex.submit(ctx.tlc, "WalletDB", "Keypool", "MC_keypool.cfg" if quick else "MC_keypool_t.cfg", workers=2, xmx="2g")
-        f_neg = {v: ex.submit(ctx.tlc, "WalletDB", "Keypool", "MC_keypool_%s.cfg" % v, expect_violation=True, workers=1, xmx="1g") for v in ("nowrite", "staleidx", "lazysync")}
-        f_sim = ex.submit(ctx.tlc, "WalletDB", "Keypool", "Sim_keypool.cfg", name="sim_keypool", simulate=(40 if quick else 400, 14 if quick else 24), xmx="2g")
+        f_neg = {v: ex.submit(ctx.tlc, "WalletDB", "Keypool", "MC_keypool_%s.cfg" % v, expect_violation=True, workers=1, xmx="1g") for v in ("nowrite", "staleidx", "lazysync", "failreturn")}
+        f_sim = ex.submit(ctx.tlc, "WalletDB", "Keypool", "Sim_keypool.cfg", name="sim_keypool", simulate=(40 if quick else 400, 20 if quick else 26), xmx="2g")
         f_ok.result()
         for v, f in f_neg.items():
             if f.result().violated != "NoRepeat":
@@ -194,34 +248,58 @@ def run(ctx):
     def interesting(b):
         acts = [s["a"][0] for s in b["steps"]]
         return acts.count("new") >= 3 and ("crash" in acts or "reload" in acts)
-    behs = [b for b in behs if interesting(b)]
-    behs.sort(key=lambda b: -len({s["a"][0] + str(s["a"][1:]) for s in b["steps"]}))
-    # a hand-shaped behaviour that is always included: every descriptor, a refill, a clean reload, a kill and a power failure
-    fixed = [["new", "bech32/0"]] * 4 + [["new", "bech32m/1"]] * 3 + [["new", s] for s in W.SLOTS] + [["topup", 5], ["new", "bech32/0"], ["reload"], ["new", "bech32/0"], ["new", "legacy/1"], ["crash", "kill"],
-                                             ["new", "bech32/0"], ["new", "bech32m/1"], ["crash", "power"], ["new", "bech32/0"], ["new", "p2sh-segwit/0"]]
-    behs = behs[: (1 if quick else 10)]
-    per_action = collections.Counter(s["a"][0] for b in behs for s in b["steps"])
-    for need in ("new", "reload", "crash", "topup"):
-        if not per_action[need] and need not in [a[0] for a in fixed]:
-            raise vflib.InfraError("simulated behaviours never take action %s" % need)
-    stride = 5 if quick else 1
-    lines, devs, stats = [], [], collections.Counter()
-    jobs = max(1, min(len(behs) + 1, vflib.free_cpus() // 2))
 
-    def one(item):
-        bi, beh = item
-        return run_chain(ctx, binary, bi, beh, quick, stride)
-    items = [(0, None)] + [(i + 1, b) for i, b in enumerate(behs)]
-    # the fixed behaviour carries no model predictions; it is judged by TLC on the observed addresses only
-    def fixed_beh():
-        steps = []
-        for a in fixed:
-            if a[0] == "new":
-                steps.append(dict(a=["newbegin", a[1]]))
-            steps.append(dict(a=a))
-        return dict(steps=steps)
+    def score(b):
+        kinds = {s["a"][0] + str(s["a"][1:]) for s in b["steps"]}
+        fails = sum(1 for s in b["steps"] if s.get("r") == ["fail"])
+        return len(kinds) + 6 * min(fails, 2) + (3 if b["init"]["lock"] != "plain" else 0)
+    sim_fail = sum(1 for b in behs for s in b["steps"] if s.get("r") == ["fail"])
+    behs = [b for b in behs if interesting(b)]
+    behs.sort(key=lambda b: -score(b))
+    behs = behs[: (1 if quick else 10)]
+    # two hand-shaped behaviours that are always included. Plain wallet: runs of requests on one descriptor, every descriptor, returned
+    # reservations, a refill, a clean reload, a kill and a power failure. Encrypted wallet: the hardened change descriptor runs dry while the wallet
+    # is locked (requests and reservations FAIL), is refilled after an unlock, across a reload, a kill and a power failure.
+    fixed_plain = [["new", "bech32/0"]] * 4 + [["new", "bech32m/1"]] * 3 + [["resret", "bech32m/1"], ["new", "bech32m/1"]] + [["new", s] for s in W.SLOTS] + [
+        ["topup", 5], ["new", "bech32/0"], ["reload"], ["new", "bech32/0"], ["resret", "legacy/1"], ["new", "legacy/1"], ["crash", "kill"],
+        ["new", "bech32/0"], ["new", "bech32m/1"], ["crash", "power"], ["new", "bech32/0"], ["new", "p2sh-segwit/0"]]
+    H = HARD_SLOT
+    fixed_enc = [["lock"], ["new", H], ["new", H], ["new", H], ["new", H], ["resret", H], ["new", "bech32/0"], ["new", H], ["unlock"], ["resret", H], ["new", H], ["topup", 0], ["lock"],
+                 ["new", H], ["new", H], ["reload"], ["new", H], ["new", H], ["new", H], ["crash", "kill"], ["new", H], ["unlock"], ["new", H], ["new", "legacy/1"], ["lock"], ["new", H], ["new", H], ["new", H],
+                 ["crash", "power"], ["new", H], ["new", "bech32/0"], ["unlock"], ["new", H]]
+
+    def with_begin(acts):
+        out = []
+        for a in acts:
+            if a[0] in ("new", "resret"):
+                out.append(["newbegin", a[1], a[0]])
+            out.append(a)
+        return out
+    fixed = [("plain", with_begin(fixed_plain)), ("unlocked", with_begin(fixed_enc))]
+    bpath = os.path.join(ctx.work, "fixed.ndjson")
+    with open(bpath, "w") as f:
+        for lk, acts in fixed:
+            f.write(json.dumps(dict(lock=lk, acts=acts)) + "\n")
+    rr = ctx.tlc("WalletDB", "KeypoolRun", "Run_keypool.cfg", name="run_keypool", env={"BEHS": bpath}, workers=1, xmx="1g")
+    rows = collections.defaultdict(dict)
+    for row in vflib.load_emitted(rr.emit_path):
+        rows[row["b"] - 1][row["k"]] = row
+    fixed_behs = []
+    for n, (lk, acts) in enumerate(fixed):
+        if len(rows[n]) != len(acts):
+            raise vflib.InfraError("fixed behaviour %d is not a behaviour of Keypool (stops after step %d: %s)" % (n, len(rows[n]), acts[len(rows[n])] if len(rows[n]) < len(acts) else ""))
+        fixed_behs.append(dict(init=dict(lock=lk), steps=[dict(a=rows[n][k + 1]["a"], r=rows[n][k + 1]["r"], exp=rows[n][k + 1]["t"]) for k in range(len(acts))]))
+    behs = fixed_behs + behs
+    per_action = collections.Counter(s["a"][0] + (" fail" if s.get("r") == ["fail"] else "") for b in behs for s in b["steps"])
+    for need in ("new", "new fail", "resret", "resret fail", "reload", "crash", "topup", "lock", "unlock"):
+        if not per_action[need]:
+            raise vflib.InfraError("no replayed behaviour takes action %s" % need)
+    ctx.extra["failed_requests_in_all_simulated_behaviours"] = sim_fail
+    stride = 6 if quick else 1
+    lines, devs, stats = [], [], collections.Counter()
+    jobs = max(1, min(len(behs), vflib.free_cpus() // 2))
     with concurrent.futures.ThreadPoolExecutor(max_workers=jobs) as ex:
-        futs = [ex.submit(run_chain, ctx, binary, it[0], fixed_beh() if it[1] is None else it[1], quick, stride) for it in items]
+        futs = [ex.submit(run_chain, ctx, binary, bi, b, quick, stride) for bi, b in enumerate(behs)]
         for f in futs:
             l, d, s = f.result()
             lines += l; devs += d; stats.update(s)
@@ -253,9 +331,9 @@ def run(ctx):
     ctx.extra["observations_breaking_an_invariant"] = {"%s | %s | %s | %s" % k: v for k, v in reported.items()}
     ctx.assumptions += ["power loss: per-file durability = content at last fsync; no torn writes or intra-file reordering; directory entries are durable once created",
                         "crash points: every return of an address request, refill or reload, and %s" % ("every %d-th write/fsync boundary inside the calls" % stride if stride > 1 else "every write/fsync boundary inside the calls"),
-                        "keypool size %d so that every request extends the range" % KEYPOOL]
+                        "keypool size %d so that every request extends the range and a locked hardened descriptor runs dry after %d requests" % (KEYPOOL, KEYPOOL)]
     return ctx.finish(level="fault_enumeration", exhaustive=False,
-                      rule="TLC-simulated keypool behaviours plus one fixed behaviour run as chains of wallet sessions under strace; observation = (behaviour, session, syscall index, "
+                      rule="TLC-simulated keypool behaviours plus two fixed behaviours (plain wallet; encrypted wallet with a hardened change descriptor) run as chains of wallet sessions under strace; observation = (behaviour, session, syscall index, "
                            "image kind) with the addresses handed out before that point plus one fresh address per active descriptor from the reloaded image")
 
 
